@@ -29,6 +29,14 @@ T={
 "seed2-C13":("U512::divrem decides the subtraction before doubling (r >= half / r > half)","even modulus only, i.e. Fr::from_hash (mod r-1) on inputs with a bit-prefix that is a multiple of r-1"),
 "seed2-C15":("AffineG::from_jacobian normalises and then validates (x, y) with new(): z is never looked at","an identity stored as (x_P, y_P, 0) with (x_P, y_P) a valid point: from_jacobian returns Some(P)"),
 "seed2-C16":("adder 'tidy-up': other.is_zero() test folded into the h == 0 branch","history: a = P - P (non-canonical identity); b = P + P (z != 1); b + a gives O instead of 2P (right operand only)"),
+"seed3-C01":("G2Prepared::from gains a lazily built table for the generator P2, matched by comparing z and x only","Q = -P2 (any representative) through fast_pairing / G2Prepared: e(P,-P2) returned equal to e(P,P2)"),
+"seed3-C03":("G2Prepared caches the coefficient table evaluated at the last G1 point, keyed on the affine x only","two consecutive calls on one prepared value (or a clone of a used one) with P and then -P"),
+"seed3-C07":("U256::mul2 decides the reduction before the shift (self >= p>>1)","the single element whose stored (Montgomery) value is (q-1)/2, doubled inside point arithmetic / Fq2::sqrt: result 2^256-1, non-reduced"),
+"seed3-C08":("G2::from_uncompressed computes bytes.len() - 1 before the length test","the empty byte string in a build with overflow checks: panic; release wraps and rejects"),
+"seed3-C09":("subgroup test by a hand-written ladder over the bits of r with incomplete mixed additions","twist points of order 13 (the ladder hits -P after 12 = -1 mod 13 and degenerates): accepted by all four G2 constructors"),
+"seed3-C11":("Gt::pow as a 4-bit window method over 64-bit limbs that skips zero limbs, also below the top limb","exponents with an all-zero 64-bit limb below their top limb (2^64, 2^128+5, 2^192)"),
+"seed3-C14":("Fq2::sqrt fast path for purely imaginary input using i^2 = -1 (returns before the final check)","purely imaginary b*i with b/2 a residue: Some(t + t*i) whose square is not the input (unsound)"),
+"seed3-C18":("debug_assert on the lazy-reduction accumulator in sum_of_products with a bound that is false by a narrow margin","Fq2 product whose four Montgomery forms are within a fraction of a percent of q: assertion fires in debug builds only"),
 "seed2-C17":("Fq12::pow squares with a Granger-Scott cyclotomic squaring","pow(x, e >= 2) on any non-cyclotomic element; pairings only ever feed cyclotomic bases"),
 }
 for k,(s,n) in T.items():
